@@ -3,6 +3,8 @@
 package model3d
 
 import (
+	"math"
+
 	"github.com/unixpickle/model3d/internal/vp"
 )
 
@@ -437,5 +439,45 @@ func VP_C03_TransformBounds() {
 	vp.Assert(vp.And(q.X >= mn.X, q.X <= mx.X), "image of every point of the box is inside the reported bounds (x)")
 	vp.Assert(vp.And(q.Y >= mn.Y, q.Y <= mx.Y), "image of every point of the box is inside the reported bounds (y)")
 	vp.Assert(vp.And(q.Z >= mn.Z, q.Z <= mx.Z), "image of every point of the box is inside the reported bounds (z)")
+	vp.Reach("end")
+}
+
+// VP_C05_MCConj: MarchingCubesConj with several transforms passed separately
+// (translate then scale, or scale then translate - they do not commute)
+// returns a mesh in the original space: mapped forward again by the
+// composite, every vertex is the midpoint of an edge of the sampling lattice
+// of the transformed solid. The solid is arbitrary (symbolic answers) inside
+// a small fixed box.
+func VP_C05_MCConj() {
+	s := &vpMemoSolid{min: XYZ(0, 0, 0), max: XYZ(0.5, 0.5, 0.25)}
+	off := XYZ(0.25, 0, 0)
+	var xf []Transform
+	var fwd func(Coord3D) Coord3D
+	var shift Coord3D // lattice points of the transformed solid are at shift + integers
+	switch vp.Param("order") {
+	case 0:
+		xf = []Transform{&Translate{Offset: off}, &Scale{Scale: 2}}
+		fwd = func(c Coord3D) Coord3D { return c.Add(off).Scale(2) }
+		shift = XYZ(0.5, 0, 0)
+	case 1:
+		xf = []Transform{&Scale{Scale: 2}, &Translate{Offset: off}}
+		fwd = func(c Coord3D) Coord3D { return c.Scale(2).Add(off) }
+		shift = XYZ(0.25, 0, 0)
+	}
+	m := MarchingCubesConj(s, 1, 0, xf...)
+	any := false
+	for _, v := range m.VertexSlice() {
+		any = true
+		w := fwd(v).Sub(shift).Array()
+		nfrac := 0
+		for _, x := range w {
+			if x != math.Floor(x) {
+				nfrac++
+				vp.Assert(x-math.Floor(x) == 0.5, "vertex is the midpoint of its lattice edge")
+			}
+		}
+		vp.Assert(nfrac == 1, "mapped forward by the composite transform, every vertex lies on an edge of the transformed solid's sampling lattice")
+	}
+	_ = any
 	vp.Reach("end")
 }
